@@ -73,6 +73,9 @@ def _state_names(states, rng, kind="str"):
         return {s: vals[i] for i, s in enumerate(states)}
     if kind == "range":
         return {s: i for i, s in enumerate(states)}
+    if kind == "perm":      # integer names that are a non-identity permutation of the state NUMBERS
+        n = len(states)
+        return {s: (i + 1) % n for i, s in enumerate(states)}
     if kind == "tuple":
         return {s: ("st", i * 3) for i, s in enumerate(states)}
     if kind == "mixed":
